@@ -35,7 +35,10 @@ Init == IF Mode = "check"
              /\ depth \in 0..6 /\ closed \in BOOLEAN
              /\ expect = Outcome(Nest(depth, closed), 4)
         ELSE /\ api \in DecodeAPIs \cup EncodeAPIs
-             /\ shape \in (IF api \in {"unmarshal_typed", "marshal_cycle"} THEN {"obj"} ELSE {"arr", "obj", "mixed"})
+             \* "...sib": the root container has one more member after the deep chain (what is touched after returning from the bound)
+             /\ shape \in (IF api \in {"unmarshal_typed", "marshal_cycle"} THEN {"obj"}
+                           ELSE IF api \in EncodeAPIs THEN {"arr", "obj", "mixed"}
+                           ELSE {"arr", "obj", "mixed", "arrsib", "objsib", "mixedsib"})
              /\ depth \in (IF api = "marshal_cycle" THEN {1} ELSE Depths)
              /\ closed \in (IF api \in EncodeAPIs THEN {TRUE} ELSE BOOLEAN)
              /\ expect = Expect(api, shape, depth, closed)
